@@ -18,6 +18,7 @@ func collectRaces(m *Merged, workDir string, prefixes []string) {
 	blocks := 0
 	distinct := map[string]string{}
 	excluded := 0
+	thirdParty := map[string]int{}
 	for _, pre := range prefixes {
 		files, _ := filepath.Glob(pre + ".*")
 		for _, f := range files {
@@ -35,6 +36,12 @@ func collectRaces(m *Merged, workDir string, prefixes []string) {
 					excluded++
 					continue
 				}
+				if parts := strings.Split(sig, " | "); len(parts) == 2 && strings.HasPrefix(parts[0], "[") && strings.HasPrefix(parts[1], "[") {
+					// neither access is made by wallet code: both accessors are functions of a
+					// third-party library (or of the harness) working on that library's own memory
+					thirdParty[sig]++
+					continue
+				}
 				if _, ok := distinct[sig]; !ok {
 					distinct[sig] = blk
 				}
@@ -44,6 +51,7 @@ func collectRaces(m *Merged, workDir string, prefixes []string) {
 	m.Extra["race_report_blocks"] = blocks
 	m.Extra["race_reports_excluded_logging_only"] = excluded
 	m.Extra["race_distinct_pairs"] = len(distinct)
+	m.Extra["race_reports_between_third_party_accessors"] = thirdParty
 	sigs := []string{}
 	for s := range distinct {
 		sigs = append(sigs, s)
@@ -75,7 +83,7 @@ func raceSignature(blk string) (string, bool) {
 		}
 		if len(secs) > 0 && strings.HasPrefix(l, "  ") && !strings.HasPrefix(l, "      ") {
 			fn := strings.TrimSpace(l)
-			if i := strings.Index(fn, "("); i > 0 {
+			if i := strings.LastIndex(fn, "("); i > 0 {
 				fn = fn[:i]
 			}
 			secs[len(secs)-1].frames = append(secs[len(secs)-1].frames, fn)
@@ -88,10 +96,10 @@ func raceSignature(blk string) (string, bool) {
 			access = append(access, s)
 		}
 	}
-	// pick: first repository frame of the stack (for the signature) and whether the access
-	// happened inside the third-party logger: scanning from the top of the stack, a frame of
-	// mass-core/logging or logrus is reached before any frame of the wallet, the harness or
-	// another mass-core package.
+	// pick: the accessor (first frame that is not Go runtime/sync: the function whose code touches
+	// the memory), the first wallet frame above the harness entry (for the signature; frames below
+	// the first harness frame are ignored, race logs sometimes carry stale frames there), and
+	// whether the access happened inside the third-party logger.
 	pick := func(s sec) (string, bool) {
 		inLogger := false
 		for _, f := range s.frames {
@@ -103,20 +111,28 @@ func raceSignature(blk string) (string, bool) {
 				break
 			}
 		}
+		accessor := ""
+		for _, f := range s.frames {
+			if !strings.HasPrefix(f, "runtime.") && !strings.HasPrefix(f, "sync.") && !strings.HasPrefix(f, "sync/atomic.") && !strings.HasPrefix(f, "internal/") {
+				accessor = f
+				break
+			}
+		}
 		first := ""
 		for _, f := range s.frames {
+			if strings.HasPrefix(f, "verifharness/props.") || strings.HasPrefix(f, "verifharness/core.") {
+				break
+			}
 			if strings.HasPrefix(f, "massnet.org/mass-wallet/") {
 				first = f
 				break
 			}
 		}
 		if first == "" {
-			for _, f := range s.frames {
-				if !strings.HasPrefix(f, "runtime.") {
-					first = f
-					break
-				}
-			}
+			first = accessor
+		}
+		if !strings.HasPrefix(accessor, "massnet.org/mass-wallet/") {
+			first = "[" + accessor + "] " + first
 		}
 		return first, inLogger
 	}
